@@ -126,7 +126,9 @@ theorem applyDeletions_spec (e : Event) (tags : List (List Bytes)) (s s' : State
 theorem C08_sql_delete_exact (s s' : State) (e : Event) (h5 : e.kind = 5)
     (h : addEvent s e = .ok s' true) (r : Event) (hne : r ≠ e) :
     r ∈ s'.events ↔ r ∈ s.events ∧ ¬ (r.pubkey = e.pubkey ∧ Referenced e r) := by
-  unfold addEvent at h
+  have hres : isResubmission s e = false := by
+    simp [isResubmission, isReplaceable, isParamReplaceable, h5]
+  rw [addEvent_fresh s e hres] at h
   have hpre : preSave s e = some s := by
     unfold preSave
     simp [isReplaceable, isParamReplaceable, h5]
